@@ -75,7 +75,7 @@ def oracle_versions(case, obs, stats):
     fails = []
     nb = [i for i, s in enumerate(case["history"]) if s[0] == "build"]
     i1, i2 = nb[0], nb[1]
-    if not (obs[i1][0].startswith("ok:") and obs[i2][0].startswith("ok:")):
+    if not (obs[i1][0].startswith("ok:") and obs[i2][0].startswith("ok:")) or seqprop.dir_size_observed(obs):
         return []
     eq = json_equal(tag["old"], tag["new"])
     m = stats["meta"][i2]
